@@ -187,8 +187,9 @@ def conv_records(tag, j, g, rng):
     return out
 
 
-def directed_records(tag, j, g, rng):
-    """directed source: DiHypergraph -> Hypergraph keeps tail U head; HIF and the bipartite edge list keep direction"""
+def directed_records(tag, j, g, rng, disk=None):
+    """directed source: DiHypergraph -> Hypergraph keeps tail U head; HIF and the bipartite edge list keep direction.
+    With disk=<directory>: only the file round trips (C11)."""
     out = []
     D = xgi.DiHypergraph()
     D.add_nodes_from([g.node(n) for n in j["nodes"]])
@@ -206,12 +207,21 @@ def directed_records(tag, j, g, rng):
             "n2e": [sorted(set(a) | set(b)) for a, b in zip(dsrc["nout"], dsrc["nin"])],
             "nak": dsrc["nak"], "eak": dsrc["eak"], "nattr": dsrc["nattr"], "eattr": dsrc["eattr"],
             "gattr": dsrc["gattr"], "uid": dsrc["uid"], "frozen": False}
-    r, res = _do(lambda: xgi.Hypergraph(D))
-    dst, anom = hg.proj(r, g) if r is not None else (None, [])
-    out.append(rec(f"{tag}.Hypergraph(DiHypergraph)", "C10", "Hypergraph(DiHypergraph)", "same_network", flat, dst, res,
-                   sorted(set(da + anom)), r is None or type(r) is xgi.Hypergraph, what=f"Hypergraph(DiHypergraph) ({g.name})"))
-    for conv, f in (("hif_dict(DiHypergraph)", lambda: xgi.from_hif_dict(xgi.to_hif_dict(D))),
-                    ("DiHypergraph(DiHypergraph)", lambda: xgi.DiHypergraph(D))):
+    prop = "C11" if disk else "C10"
+    if not disk:
+        r, res = _do(lambda: xgi.Hypergraph(D))
+        dst, anom = hg.proj(r, g) if r is not None else (None, [])
+        out.append(rec(f"{tag}.Hypergraph(DiHypergraph)", "C10", "Hypergraph(DiHypergraph)", "same_network", flat, dst, res,
+                       sorted(set(da + anom)), r is None or type(r) is xgi.Hypergraph, what=f"Hypergraph(DiHypergraph) ({g.name})"))
+
+    def hif_file():
+        path = os.path.join(disk, f"{tag}.dhif.json")
+        xgi.write_hif(D, path)
+        return xgi.read_hif(path)
+    convs = (("hif(DiHypergraph)", hif_file),) if disk else (
+        ("hif_dict(DiHypergraph)", lambda: xgi.from_hif_dict(xgi.to_hif_dict(D))),
+        ("DiHypergraph(DiHypergraph)", lambda: xgi.DiHypergraph(D)))
+    for conv, f in convs:
         r, res = _do(f)
         if r is not None and type(r) is xgi.DiHypergraph:
             d2, a2 = dhg.proj(r, g)
@@ -225,12 +235,14 @@ def directed_records(tag, j, g, rng):
             fl2["e2n"] = [sorted(set(t) | set(h)) for t, h in zip(d2["tail"], d2["head"])]
             fl2["n2e"] = [sorted(set(a) | set(b)) for a, b in zip(d2["nout"], d2["nin"])]
             fl2.update({k: d2[k] for k in ("nodes", "edges", "nak", "eak", "nattr", "eattr", "gattr", "uid")})
-            out.append(rec(f"{tag}.{conv}", "C10", conv, "everything", flat, fl2, res,
+            out.append(rec(f"{tag}.{conv}", prop, conv, "everything", flat, fl2, res,
                            sorted(set(da + a2)) + ([] if same else ["direction-not-preserved"]), True,
                            what=f"{conv} ({g.name})"))
         else:
-            out.append(rec(f"{tag}.{conv}", "C10", conv, "everything", flat, None, res if res != "ok" else "wrong-class",
+            out.append(rec(f"{tag}.{conv}", prop, conv, "everything", flat, None, res if res != "ok" else "wrong-class",
                            da, False, what=f"{conv} ({g.name})"))
+    if disk:
+        return out
     # representations that keep the incidences with their direction (also for nodes on both sides of an edge)
     def inc(d):
         return ({(e, n) for e, t in zip(d["edges"], d["tail"]) for n in t}, {(e, n) for e, h in zip(d["edges"], d["head"]) for n in h})
@@ -448,6 +460,7 @@ def _disk_worker(args):
         rng = random.Random(seed_ * 32452843 + base + k)
         g = Gamma(*nets.FAMS[(base + k) % 2])  # JSON-representable labels: ints and strings
         out += disk_records(f"s{base + k}", j, g, rng, tmpdir)
+        out += directed_records(f"s{base + k}d", j, g, rng, disk=tmpdir)
     import shutil
 
     shutil.rmtree(tmpdir, ignore_errors=True)
